@@ -1174,6 +1174,12 @@ class App(falcon.app.App):
             if not await self._handle_exception(req, None, ex, params, ws=web_socket):
                 raise
 
+            # NOTE: The responder is gone; if a custom error handler has dealt
+            #   with the exception without closing the connection, do not leave
+            #   the client hanging.
+            if not web_socket.closed:
+                await self._ws_cleanup_on_error(web_socket)
+
     def _prepare_middleware(  # type: ignore[override]
         self, middleware: List[object], independent_middleware: bool = False
     ) -> AsyncPreparedMiddlewareResult:
